@@ -127,6 +127,9 @@ def unpackEntry (cwd : Str) (allow : List Str) (privileged : Bool) (dst : Str) (
     match newUnpackInfo st.fs dst e with
     | none => (st, some .illegal)
     | some path =>
+      -- extended (pax) header records: nothing is created, not even the parents of the name
+      if e.isTypeX then (st, none)
+      else
       let dir := pathDir path
       match st.fs.mkdirAll nowT (mkdirAllFuel dir) dir 0o755 with
       | (fs1, some _) => ({ fs := fs1, dirs := st.dirs }, some .ioerr)
